@@ -10,6 +10,7 @@ mod ignoreprog;
 mod nfa;
 mod regexprog;
 mod smt;
+mod walkreplay;
 
 use grep_matcher::Matcher;
 use std::fmt::Write as _;
@@ -151,6 +152,9 @@ fn main() {
         std::process::exit(2);
     }
     let mode = args[1].clone();
+    if mode == "walkreplay" {
+        std::process::exit(walkreplay::run(&args));
+    }
     let tier = arg(&args, "--tier", "quick");
     let seed: u64 = arg(&args, "--seed", "0").parse().unwrap_or(0);
     let out = arg(&args, "--out", "/dev/stdout");
